@@ -119,6 +119,10 @@ type c12ctx struct {
 	r     *mon.Run
 	key   *world.Key
 	table *rangeproof.SquaresTable
+	// an honest, verified proof of warmCred used as the earlier content of reused objects
+	warmBase           *gabi.ProofD
+	warmCred           *world.Cred
+	warmCtx, warmNonce *big.Int
 }
 
 // verifyAndJudge verifies an (in-memory, as received) proof and applies the oracle on acceptance.
@@ -130,6 +134,24 @@ func (x *c12ctx) verifyAndJudge(family, desc string, d *gabi.ProofD, cred *world
 	r.Eval(family, outcome(ok, pv))
 	if pv != nil {
 		r.PanicSeen(mon.PanicSite(stack))
+	}
+	// object history: the same proof arriving in an object that has verified another proof of this credential before
+	// (a verifier decoding successive messages into one variable) must be judged exactly like a fresh object
+	if x.warmBase != nil && x.warmCred == cred {
+		w := cloneD(x.warmBase)
+		if okw, _, _ := verifyList(gabi.ProofList{w}, []*gabikeys.PublicKey{x.key.PK}, x.warmCtx, x.warmNonce, false, nil); okw {
+			src := cloneD(d)
+			w.C, w.A, w.EResponse, w.VResponse, w.AResponses, w.ADisclosed, w.NonRevocationProof, w.RangeProofs = src.C, src.A, src.EResponse, src.VResponse, src.AResponses, src.ADisclosed, src.NonRevocationProof, src.RangeProofs
+			okh, pvh, _ := verifyList(gabi.ProofList{w}, []*gabikeys.PublicKey{x.key.PK}, ctx, nonce, false, nil)
+			r.Eval(family+"/reused-object", outcome(okh, pvh))
+			if okh {
+				c12Oracle(r, family+"-reused-object", desc+" (decoded into an object that verified another proof before)", w, cred, false)
+				if !ok {
+					r.Violation("C12/verdict-depends-on-object-history", "a proof rejected in a fresh object is accepted when it is placed into an object that verified another proof before ("+family+": "+desc+")",
+						map[string]any{"family": family, "case": desc, "proof": dumpD(d), "earlier_proof": dumpD(x.warmBase)})
+				}
+			}
+		}
 	}
 	if ok {
 		c12Oracle(r, family, desc, recv, cred, fullBox)
@@ -485,6 +507,9 @@ func c12Transplants(x *c12ctx, jr *rand.Rand, idx int) {
 	if !x.verifyAndJudge("lib-honest", fmt.Sprintf("m=%d two statements", m), honest, cred, ctx, nonce, true) {
 		return
 	}
+	xc := *x
+	xc.warmBase, xc.warmCred, xc.warmCtx, xc.warmNonce = honest, cred, ctx, nonce
+	x = &xc
 	mv := func(name string, f func(d *gabi.ProofD)) {
 		d := cloneD(honest)
 		f(d)
